@@ -25,6 +25,13 @@ from leanbuild import lean_obligations
 TAG_RE = re.compile(r"\{%[\s\S]*?%\}|\{\{[\s\S]*?\}\}|\{#[\s\S]*?#\}|<!--[\s\S]*?-->")
 
 CODE_DOCS = [
+    # code spans whose content starts or ends with a backtick (one side only, both sides, only backticks) or with spaces
+    "a `` `lead`` b ``trail` `` c `` `both` `` d `` ` `` e ``` `` ``` g `` x `` h\n",
+    # (not here: a span padded with TWO spaces, ``  two  `` — Marko strips all surrounding blanks of a code span where CommonMark
+    # strips one from each side, so the strict reader sees ' two ' become 'two'; third-party reading, noted in DESIGN §12.6b)
+    "padded both sides, backtick at one end: `` foo` `` and `` `bar `` and ``` a``b` ``` and ``` `c``d ``` end\n",
+    "| cell `` `p`` | ``q` `` |\n|---|---|\n| `` ` `` | `a\\|b` |\n",
+
     "```\nplain\n```\n", "```python extra words\nx = 1\n\n\ny = 2\n```\n", "~~~\n```\n````\n~~~\n", "````\n```\n~~~\n````\n",
     "```\n   ```\n    ````\n```\n", "- item\n\n  ```sh\n  $ a\n\n  $ b\n  ```\n", "> ```\n> quoted\n>\n> code\n> ```\n",
     "    indented code\n    second\n\nafter\n".replace("    indented", "text\n\n    indented", 1),
@@ -116,6 +123,18 @@ def extract(text: str) -> list:
     return out
 
 
+def strict_codespans(text: str) -> list[str]:
+    """code span contents as an independent CommonMark reader (markdown-it-py) gives them: one space is stripped from each side
+    only when BOTH sides have one — Marko strips more, so a one-sided padding would go unseen with Marko on both sides"""
+    from markdown_it import MarkdownIt
+    out = []
+    for tok in MarkdownIt("commonmark").enable("table").parse(text):
+        for ch in (tok.children or []):
+            if ch.type == "code_inline":
+                out.append(ch.content)
+    return out
+
+
 def oracle(ctx: Ctx, docs, label: str, full_product: bool, rng=None, pick=None) -> None:
     """`pick(rng)` (optional) chooses the option sets of one document instead of 3 sampled points of the product"""
     from flowmark import reformat_text
@@ -136,6 +155,12 @@ def oracle(ctx: Ctx, docs, label: str, full_product: bool, rng=None, pick=None) 
                 continue
             ctx.count(["verbatim", doc, o], nontrivial=len(a) > 0, sample=(i % 157 == 3))
             ctx.bump(label)
+            if label == "special" and "`" in doc and not o.get("smartquotes") and not o.get("ellipses"):
+                # the fixed documents only: both readers agree on what the spans of these are
+                sa, sb = strict_codespans(doc), strict_codespans(out)
+                if len(sa) == len([x for x in a if x[0] == "codespan"]) and [re.sub(r"\s+", " ", x) for x in sa] != [re.sub(r"\s+", " ", x) for x in sb]:
+                    ctx.fail("VERBATIM (independent reader): a code span's content differs between the input and the formatted output",
+                             {"doc": doc, "opts": o}, {"input": sa, "output": sb})
             if a != b:
                 k = next((j for j, (x, y) in enumerate(zip(a, b)) if x != y), min(len(a), len(b)))
                 xa = a[k] if k < len(a) else "<missing>"
